@@ -29,12 +29,12 @@ def confirm(src):
     sh('git checkout -q --detach %s && git checkout -- . && git clean -fdq' % subprocess.check_output(
         'git -C /repo rev-parse HEAD', shell=True, text=True).strip(), cwd=SCRATCH)
     env = {'PYTHONPATH': SCRATCH}
-    rc0, out0 = sh('timeout 300 /venv/bin/python %s' % demo, cwd='/tmp', env=env)
+    rc0, out0 = sh('timeout 300 /venv/bin/python %s %s' % (demo, SCRATCH), cwd=SCRATCH, env=env)
     rc, out = sh('git apply --check %s && git apply %s' % (patch, patch), cwd=SCRATCH)
     if rc != 0:
         return name, None, 'patch does not apply: ' + out[-300:]
     rct, outt = sh('timeout 900 /venv/bin/python -m pytest -q -p no:cacheprovider tests 2>&1 | tail -3', cwd=SCRATCH, env=env)
-    rc1, out1 = sh('timeout 300 /venv/bin/python %s' % demo, cwd='/tmp', env=env)
+    rc1, out1 = sh('timeout 300 /venv/bin/python %s %s' % (demo, SCRATCH), cwd=SCRATCH, env=env)
     sh('git checkout -- . && git clean -fdq', cwd=SCRATCH)
     tests_ok = ' passed' in outt and 'failed' not in outt
     ok = rc0 == 0 and rc1 != 0 and tests_ok
